@@ -5419,12 +5419,42 @@ impl<'a, const HAS_CR: bool> Parser<'a, HAS_CR> {
                 while matches!(self.peek(), Some(b' ' | b'\t')) {
                     self.advance();
                 }
+                // With only the virtual root on the indent stack no block
+                // collection is open, so there is no indentation for the tab
+                // to be part of: it is separation (`s-separate-in-line`).
+                let at_document_level = self.indent_stack.len() == 1;
                 // If it's a flow structure, that's allowed
                 match self.peek() {
                     Some(b'{' | b'[') => {
                         self.close_deeper_indents(0);
                         self.parse_value(0)?;
                         // Move to next line if we haven't already
+                        self.skip_line_break();
+                        self.drop_stale_pending_head_comment(pending_head_comment_before);
+                        return Ok(());
+                    }
+                    // A blank or comment-only line at document level, e.g. the
+                    // white space JSON allows after its value (`{}\n\t`).
+                    // Inside a block collection it stays an error: there the
+                    // line may be what ends a block scalar (`Y79Y/000`, see
+                    // `test_tab_only_block_scalar_content_line_still_rejected_1186`).
+                    None | Some(b'\n' | b'\r' | b'#') if at_document_level => {
+                        self.skip_to_eol();
+                        self.skip_line_break();
+                        return Ok(());
+                    }
+                    // The document's root node, when it is not block structure:
+                    // the scalar form of `Q5MG`/`6CA3` above (`\ttrue`, `\t"x"`),
+                    // and the same rule `tab_indents_block_structure` applies
+                    // to a tab after leading spaces. `bp_pos` unchanged since
+                    // `start_document` means the document has no node yet (see
+                    // `end_document`); a nested node needs real indentation,
+                    // so `name:\n\tvalue` is still rejected.
+                    Some(_)
+                        if self.bp_pos == self.document_start_bp_pos
+                            && !super::line_is_structural(self.input, self.pos) =>
+                    {
+                        self.parse_block_node(0)?;
                         self.skip_line_break();
                         self.drop_stale_pending_head_comment(pending_head_comment_before);
                         return Ok(());
@@ -5983,6 +6013,39 @@ mod tests {
     fn a_flow_node_after_a_leading_tab_is_still_accepted() {
         assert!(build_semi_index(b"\t{}\n").is_ok());
         assert!(build_semi_index(b"\t[\n\t]\n").is_ok());
+    }
+
+    /// The scalar counterpart of the test above, plus the blank line after a root
+    /// node: where no block collection is open a tab at column 0 cannot be
+    /// indentation. This is the white space JSON allows around its value
+    /// (`jq --tab` output ends a line with a tab-indented one), so `yq -p json`
+    /// used to reject valid JSON. A nested node still needs real indentation.
+    #[test]
+    fn a_tab_at_column_0_is_separation_where_no_block_collection_is_open() {
+        for yaml in [
+            &b"\ttrue"[..],
+            b"\t\"x\"\n",
+            b"\n\t 12.5\n\t",
+            b"{}\n\t",
+            b"{\"a\": 1}\n\t \n\t# c\n",
+            b"\"x\"\n\t\n",
+        ] {
+            let result = build_semi_index(yaml);
+            assert!(result.is_ok(), "{:?}: {result:?}", yaml.escape_ascii());
+        }
+        for yaml in [
+            &b"name:\n\tvalue"[..],
+            b"\tb: 2\n",
+            b"\t- a\n",
+            b"\t\"b\": 1\n",
+        ] {
+            let result = build_semi_index(yaml);
+            assert!(
+                matches!(result, Err(YamlError::TabIndentation { .. })),
+                "{:?}: {result:?}",
+                yaml.escape_ascii()
+            );
+        }
     }
 
     /// A quoted scalar after the tab is a *node*, so the tab is separation — the `:`
